@@ -3,7 +3,7 @@
    declarative "straightforward fold" specifications the theorems compare them with.
    Go maps are association lists kept in key order (byte-wise, like Go's string <); int64
    additions wrap (add64).  The numerical aggregator is in Model/Welford.v. *)
-From Coq Require Import List NArith ZArith Bool Lia.
+From Coq Require Import List NArith ZArith Bool Lia Permutation.
 From RareV Require Import Base.Hex Base.Num.
 Import ListNotations.
 Local Open Scope Z_scope.
@@ -269,6 +269,77 @@ Definition spec_trim (pred : bytes -> bytes -> Z -> bool) (t : table) : table :=
                       (t_cols t) in
   mkT rows' (map (fun cl : bytes * Z => (fst cl, wrap64 (zsum (map (fun rw : bytes * trow => t_value (snd rw) (fst cl)) rows')))) cols')
       (t_errors t).
+
+(* ---- Trim as repaired (fix C07-trim-stale): after the loop above, the cached row sums and the
+   column-total map are recomputed from the cells that are left.  [trim_order]/[trim] stay as the
+   as-found behaviour (C07_trim_asfound_refuted). *)
+Definition recompute_cols (rows : amap trow) : amap Z :=
+  fold_left (fun m (rw : bytes * trow) =>
+               fold_left (fun m (cl : bytes * Z) => aupd (fst cl) (addo (snd cl)) m) (fst (snd rw)) m)
+            rows [].
+Definition recompute (t : table) : table :=
+  mkT (map (fun rw : bytes * trow => (fst rw, (fst (snd rw), fold_left add64 (map snd (fst (snd rw))) 0))) (t_rows t))
+      (recompute_cols (t_rows t)) (t_errors t).
+Definition trimf_order (pred : bytes -> bytes -> Z -> bool) (order : list bytes) (t : table) : table :=
+  recompute (trim_order pred order t).
+Definition trimf (pred : bytes -> bytes -> Z -> bool) (t : table) : table :=
+  trimf_order pred (map fst (t_cols t)) t.
+
+(* ---- the law of the table: everything is determined by the cells.  [cellmap]: row -> column -> value *)
+Definition cellmap := amap (amap Z).
+Definition colsum (c : bytes) (cs : cellmap) : Z := zsum (map (fun rw : bytes * amap Z => dflt (afind c (snd rw))) cs).
+Definition allcols (cs : cellmap) : list bytes := flat_map (fun rw : bytes * amap Z => map fst (snd rw)) cs.
+(* the table whose row sums, column totals and column set are those of the cells *)
+Definition rebuild (cs : cellmap) (errs : N) : table :=
+  mkT (map (fun rw : bytes * amap Z => (fst rw, (snd rw, wrap64 (zsum (map snd (snd rw)))))) cs)
+      (map (fun c => (c, wrap64 (colsum c cs))) (usort (allcols cs)))
+      errs.
+(* the cells after one Sample / one Trim, in the straightforward way *)
+Definition cs_sample_item (cs : cellmap) (c r : bytes) (v : Z) : cellmap :=
+  aupd r (fun o => aupd c (addo v) (match o with Some cells => cells | None => [] end)) cs.
+Definition cs_trim (pred : bytes -> bytes -> Z -> bool) (cs : cellmap) : cellmap :=
+  filter (fun rw : bytes * amap Z => negb (is_nil (snd rw)))
+         (map (fun rw : bytes * amap Z => (fst rw, filter (fun cl : bytes * Z => negb (pred (fst cl) (fst rw) (snd cl))) (snd rw))) cs).
+
+(* histories of Sample and Trim calls; a Trim carries the order in which Go's map range happened to
+   visit the columns *)
+Inductive top :=
+| TSample (e : bytes)
+| TTrim (pred : bytes -> bytes -> Z -> bool) (order : list bytes).
+Definition t_op (d : N) (t : table) (o : top) : table :=
+  match o with
+  | TSample e => t_sample d t e
+  | TTrim pred order => trimf_order pred order t
+  end.
+Definition t_ops (d : N) (ops : list top) : table := fold_left (t_op d) ops t0.
+(* the orders are permutations of the column set at the time of the call *)
+Fixpoint ops_valid (d : N) (t : table) (ops : list top) : Prop :=
+  match ops with
+  | [] => True
+  | o :: r => (match o with
+               | TSample _ => True
+               | TTrim _ order => Permutation order (map fst (t_cols t))
+               end) /\ ops_valid d (t_op d t o) r
+  end.
+Definition cs_op (d : N) (st : cellmap * N) (o : top) : cellmap * N :=
+  match o with
+  | TSample e => match parse3 d e with
+                 | Some (c, r, v) => (cs_sample_item (fst st) c r v, snd st)
+                 | None => (fst st, (snd st + 1)%N)
+                 end
+  | TTrim pred _ => (cs_trim pred (fst st), snd st)
+  end.
+Definition cs_ops (d : N) (ops : list top) : cellmap * N := fold_left (cs_op d) ops ([], 0%N).
+
+(* the executable model of the correspondence visits the columns in key order (C07_table_order_irrelevant) *)
+Definition t_opm (d : N) (t : table) (o : top) : table :=
+  match o with
+  | TSample e => t_sample d t e
+  | TTrim pred _ => trimf pred t
+  end.
+(* the states after every prefix *)
+Fixpoint scan {S X} (f : S -> X -> S) (h : list X) (s : S) : list S :=
+  s :: match h with [] => [] | x :: r => scan f r (f s x) end.
 
 (* trim predicates used by the correspondence *)
 Inductive tpred :=
